@@ -194,6 +194,7 @@ type dialer struct {
 	proto mangos.ProtocolInfo
 	opts  options
 	iswss bool
+	lock  sync.Mutex // protects opts
 }
 
 func (d *dialer) Dial() (transport.Pipe, error) {
@@ -202,9 +203,12 @@ func (d *dialer) Dial() (transport.Pipe, error) {
 	wd := &websocket.Dialer{}
 
 	wd.Subprotocols = []string{d.proto.PeerName + ".sp.nanomsg.org"}
+	d.lock.Lock()
 	if v, ok := d.opts[mangos.OptionTLSConfig]; ok {
 		wd.TLSClientConfig = v.(*tls.Config)
 	}
+	maxrxv, err := d.opts.get(mangos.OptionMaxRecvSize)
+	d.lock.Unlock()
 
 	w = &wsPipe{
 		addr:    d.addr,
@@ -215,9 +219,8 @@ func (d *dialer) Dial() (transport.Pipe, error) {
 	}
 
 	maxrx := 0
-	v, err := d.opts.get(mangos.OptionMaxRecvSize)
 	if err == nil {
-		maxrx, _ = v.(int)
+		maxrx, _ = maxrxv.(int)
 	}
 	if w.ws, _, err = wd.Dial(d.addr, nil); err != nil {
 		if err == websocket.ErrBadHandshake {
@@ -237,10 +240,14 @@ func (d *dialer) Dial() (transport.Pipe, error) {
 }
 
 func (d *dialer) SetOption(n string, v interface{}) error {
+	d.lock.Lock()
+	defer d.lock.Unlock()
 	return d.opts.set(n, v)
 }
 
 func (d *dialer) GetOption(n string) (interface{}, error) {
+	d.lock.Lock()
+	defer d.lock.Unlock()
 	return d.opts.get(n)
 }
 
@@ -265,6 +272,8 @@ type listener struct {
 }
 
 func (l *listener) SetOption(n string, v interface{}) error {
+	l.lock.Lock()
+	defer l.lock.Unlock()
 	switch n {
 	case OptionWebSocketCheckOrigin:
 		if v, ok := v.(bool); ok {
@@ -279,6 +288,8 @@ func (l *listener) SetOption(n string, v interface{}) error {
 }
 
 func (l *listener) GetOption(n string) (interface{}, error) {
+	l.lock.Lock()
+	defer l.lock.Unlock()
 	switch n {
 	case OptionWebSocketMux:
 		return l.mux, nil
